@@ -334,7 +334,7 @@ def inline_shared_temps(f, ref_names):
     return done
 
 
-def loops_to_comprehensions(f, ref_names):
+def loops_to_comprehensions(f, ref_names, ref_ncomp=None):
     """Undo "comprehension written out as a loop", for an accumulator the reference does not have:
         acc = {} / [] / set()                      acc = {k: v for T in IT if C}
         for T in IT:                        ->           [v for T in IT if C]
@@ -366,7 +366,10 @@ def loops_to_comprehensions(f, ref_names):
                     kind = 'list'
                 elif isinstance(v0, ast.Call) and isinstance(v0.func, ast.Name) and v0.func.id in ('dict', 'list', 'set') and not v0.args and not v0.keywords:
                     kind = v0.func.id
-                if kind is None or acc in ref_names or lp.orelse:
+                if kind is None or lp.orelse:
+                    continue
+                # (an accumulator the reference does not have; or one it has, while the reference has more comprehensions)
+                if acc in ref_names and not (ref_ncomp is not None and sum(1 for x in ast.walk(f) if isinstance(x, _COMPS)) < ref_ncomp):
                     continue
                 if any(isinstance(y, (ast.Break, ast.Continue, ast.Return, ast.Yield, ast.YieldFrom, ast.Await, ast.For, ast.While, ast.Try, ast.With,
                                       ast.FunctionDef, ast.Lambda)) for st in lp.body for y in ast.walk(st)):
@@ -633,7 +636,11 @@ def shape_of(f):
     for x in ast.walk(f):
         if isinstance(x, ast.Name) and isinstance(x.ctx, ast.Store):
             stores[x.id] = stores.get(x.id, 0) + 1
-    return {'cmp': cmps, 'if': ifs, 'fmt': fmts, 'defs': defs, 'stores': stores}
+    ifn = sorted(_if_key(x.test, x.body) for x in ast.walk(f) if isinstance(x, ast.If) and not x.orelse)
+    tests = sorted(ast.unparse(x.test) for x in ast.walk(f) if isinstance(x, ast.If))
+    ifexps = sorted(ast.unparse(x) for x in ast.walk(f) if isinstance(x, ast.IfExp))
+    ncomp = sum(1 for x in ast.walk(f) if isinstance(x, _COMPS))
+    return {'cmp': cmps, 'if': ifs, 'fmt': fmts, 'defs': defs, 'stores': stores, 'ifn': ifn, 'tests': tests, 'ifexp': ifexps, 'ncomp': ncomp}
 
 
 class _Blank(ast.NodeTransformer):
@@ -805,6 +812,139 @@ def orient_back(f, want):
     return n
 
 
+def _leaves(stmts):
+    if not stmts:
+        return False
+    last = stmts[-1]
+    if isinstance(last, (ast.Return, ast.Raise, ast.Continue, ast.Break)):
+        return True
+    if isinstance(last, ast.If) and last.orelse:
+        return _leaves(last.body) and _leaves(last.orelse)
+    return False
+
+
+def else_counts(f):
+    """{if key: number of statements in its else-arm} for the if/else statements of f"""
+    return {_if_key(x.test, x.body): len(x.orelse) for x in ast.walk(f) if isinstance(x, ast.If) and x.orelse}
+
+
+def layout_back(f, want):
+    """Undo re-layouts of the same control flow, towards the reference:
+      dedent   `if c: ..leave  else: R`   ->  `if c: ..leave` ; R        (the reference has this `if` without an else)
+      nest     `if c: ..leave` ; R        ->  `if c: ..leave  else: R'`  (the reference has it with an else of n statements:
+                                              the first n statements of R move in; a `continue` / `return` that only
+                                              served the flat layout goes)
+      flatten  `if a:` holding only `if b: S`  ->  `if a and b: S`        (the reference tests `a and b`)
+      split    `if a and b: S`            ->  `if a:` holding `if b: S`  (the reference tests `a`, then `b`)
+    each only when the function has the current form in surplus and the reference's form in deficit.  All four keep
+    the behaviour whatever the reference says: a body that always leaves makes what follows it an else-arm."""
+    if not want or os.environ.get('VERIF_NO_ORIENT'):
+        return 0
+    from collections import Counter
+    n = 0
+    ref_else, ref_plain, ref_tests = Counter(want.get('if', [])), Counter(want.get('ifn', [])), Counter(want.get('tests', []))
+    ref_n = want.get('else_n', {})
+    ref_ifexp = Counter(want.get('ifexp', []))
+    for _ in range(12):
+        cur_else = Counter(_if_key(x.test, x.body) for x in ast.walk(f) if isinstance(x, ast.If) and x.orelse)
+        cur_plain = Counter(_if_key(x.test, x.body) for x in ast.walk(f) if isinstance(x, ast.If) and not x.orelse)
+        cur_tests = Counter(ast.unparse(x.test) for x in ast.walk(f) if isinstance(x, ast.If))
+        cur_ifexp = Counter(ast.unparse(x) for x in ast.walk(f) if isinstance(x, ast.IfExp))
+        done = False
+        for holder in ast.walk(f):
+            for fld in ('body', 'orelse', 'finalbody'):
+                blk = getattr(holder, fld, None)
+                if not isinstance(blk, list) or not blk or not isinstance(blk[0], ast.stmt):
+                    continue
+                for i, st in enumerate(blk):
+                    # `x = a if c else b` / `return a if c else b`  <->  the statement in both arms of an if / else
+                    if isinstance(st, (ast.Assign, ast.Return)) and isinstance(st.value, ast.IfExp):
+                        e = st.value
+                        if cur_ifexp[ast.unparse(e)] > ref_ifexp[ast.unparse(e)]:
+                            mk = (lambda v: ast.copy_location(ast.Assign(targets=st.targets, value=v), st)) if isinstance(st, ast.Assign) else \
+                                (lambda v: ast.copy_location(ast.Return(value=v), st))
+                            new = ast.copy_location(ast.If(test=e.test, body=[mk(e.body)], orelse=[mk(e.orelse)]), st)
+                            k2 = _if_key(new.test, new.body)
+                            if cur_else[k2] < ref_else[k2]:
+                                blk[i] = new
+                                done = True
+                                break
+                            if isinstance(st, ast.Return) and cur_plain[k2] < ref_plain[k2] and i == len(blk) - 1:
+                                new.orelse = []
+                                blk[i:i + 1] = [new, mk(e.orelse)]
+                                done = True
+                                break
+                    if isinstance(st, ast.If):
+                        arms = None
+                        if len(st.body) == 1 and len(st.orelse) == 1:
+                            arms = (st.body[0], st.orelse[0])
+                        elif len(st.body) == 1 and not st.orelse and isinstance(st.body[0], ast.Return) and i + 1 < len(blk) and isinstance(blk[i + 1], ast.Return):
+                            arms = (st.body[0], blk[i + 1])
+                        if arms and type(arms[0]) is type(arms[1]) and isinstance(arms[0], (ast.Assign, ast.Return)) and arms[0].value is not None and arms[1].value is not None \
+                                and (isinstance(arms[0], ast.Return) or [ast.unparse(t) for t in arms[0].targets] == [ast.unparse(t) for t in arms[1].targets]):
+                            e = ast.IfExp(test=st.test, body=arms[0].value, orelse=arms[1].value)
+                            te = ast.unparse(e)
+                            if cur_ifexp[te] < ref_ifexp[te]:
+                                new = ast.copy_location(ast.Assign(targets=arms[0].targets, value=e) if isinstance(arms[0], ast.Assign) else ast.Return(value=e), st)
+                                if not st.orelse:
+                                    del blk[i + 1]
+                                blk[i] = new
+                                done = True
+                                break
+                    if not isinstance(st, ast.If):
+                        continue
+                    k = _if_key(st.test, st.body)
+                    if st.orelse and _leaves(st.body) and cur_else[k] > ref_else[k] and cur_plain[k] < ref_plain[k]:
+                        rest, st.orelse = st.orelse, []
+                        blk[i + 1:i + 1] = rest
+                        done = True
+                    elif not st.orelse and _leaves(st.body) and cur_plain[k] > ref_plain[k] and cur_else[k] < ref_else[k] and blk[i + 1:]:
+                        take = ref_n.get(k) or len(blk) - i - 1
+                        take = min(take, len(blk) - i - 1)
+                        st.orelse = blk[i + 1:i + 1 + take]
+                        del blk[i + 1:i + 1 + take]
+                        # (a jump that only made the flat layout work: `continue` as the last statement of a loop body's
+                        # last if-arm, bare `return` likewise at the end of the function)
+                        last = st.body[-1]
+                        is_last = i == len(blk) - 1
+                        if is_last and isinstance(last, ast.Continue) and isinstance(holder, (ast.For, ast.While)) and fld == 'body' and len(st.body) > 1:
+                            st.body.pop()
+                        elif is_last and isinstance(last, ast.Return) and last.value is None and holder is f and fld == 'body' and len(st.body) > 1:
+                            st.body.pop()
+                        done = True
+                    elif not st.orelse and len(st.body) == 1 and isinstance(st.body[0], ast.If) and not st.body[0].orelse:
+                        inner = st.body[0]
+                        joined = ast.BoolOp(op=ast.And(), values=(list(st.test.values) if isinstance(st.test, ast.BoolOp) and isinstance(st.test.op, ast.And) else [st.test]) +
+                                            (list(inner.test.values) if isinstance(inner.test, ast.BoolOp) and isinstance(inner.test.op, ast.And) else [inner.test]))
+                        tj, ta, tb = ast.unparse(joined), ast.unparse(st.test), ast.unparse(inner.test)
+                        if cur_tests[tj] < ref_tests[tj] and cur_tests[ta] > ref_tests[ta] and cur_tests[tb] > ref_tests[tb]:
+                            st.test, st.body = ast.copy_location(joined, st.test), inner.body
+                            done = True
+                    elif not st.orelse and isinstance(st.test, ast.BoolOp) and isinstance(st.test.op, ast.And) and cur_tests[ast.unparse(st.test)] > ref_tests[ast.unparse(st.test)]:
+                        vals = st.test.values
+                        for cut in range(1, len(vals)):
+                            a_ = vals[0] if cut == 1 else ast.BoolOp(op=ast.And(), values=vals[:cut])
+                            b_ = vals[cut] if cut == len(vals) - 1 else ast.BoolOp(op=ast.And(), values=vals[cut:])
+                            ta, tb = ast.unparse(a_), ast.unparse(b_)
+                            if cur_tests[ta] < ref_tests[ta] and cur_tests[tb] < ref_tests[tb]:
+                                inner = ast.copy_location(ast.If(test=b_, body=st.body, orelse=[]), st)
+                                st.test, st.body = a_, [inner]
+                                done = True
+                                break
+                    if done:
+                        break
+                if done:
+                    break
+            if done:
+                break
+        if not done:
+            break
+        n += 1
+    if n:
+        ast.fix_missing_locations(f)
+    return n
+
+
 def _reposition(f):
     """after blocks changed places: hand the source positions out again in traversal order, so that "earlier in the
     source" keeps meaning "earlier in the function" for rules that order constructs by position (reports then point a
@@ -955,12 +1095,14 @@ def canonicalise(module_name, tree):
         k0 = 0
         for _ in range(8):      # (an outer if/else is recognised by what it guards: inner ones first, then again)
             kk = orient_back(f, shapes().get(module_name, {}).get(qual))
+            kk += layout_back(f, shapes().get(module_name, {}).get(qual))
             k0 += kk
             if not kk:
                 break
         ref_all0 = {nm for nm, _ in want} | set((shapes().get(module_name, {}).get(qual) or {}).get('stores', {}))
-        if len(binding_sites(f, mg)) > len(want):
-            kl = loops_to_comprehensions(f, ref_all0)
+        sh_ = shapes().get(module_name, {}).get(qual) or {}
+        if len(binding_sites(f, mg)) > len(want) or sum(1 for x in ast.walk(f) if isinstance(x, _COMPS)) < sh_.get('ncomp', 0):
+            kl = loops_to_comprehensions(f, ref_all0, sh_.get('ncomp'))
             if kl:
                 inline_new_temps(f, ref_all0)
                 notes.append('%s.%s: %d accumulating loop(s) turned back into the reference\'s comprehension' % (module_name, qual, kl))
@@ -1029,8 +1171,12 @@ def _split_back(f, want, mg, ref_stores=None):
         rest = cur[:i] + cur[i + 1:]
         if [k for _, k in rest] != [k for _, k in want]:
             continue
-        back = {a: b for (a, _), (b, _) in zip(rest, want)}
+        back = {a: b for (a, _), (b, _) in zip(rest, want) if _ != 'comp'}
         if len(set(back.values())) != len(back):
+            continue
+        # (what is left must line up as a rename, not as a shift of names both trees use)
+        rest_names = {a for a, k_ in rest if k_ != 'comp'}
+        if any(a != b and (a in want_names or b in rest_names) for a, b in back.items()):
             continue
         now = shape_of(f)['stores']
         for y_now, y_ref in list(back.items()) + [(p_, p_) for p_ in sorted(params)]:
